@@ -120,6 +120,16 @@ def l1_order_scenarios():
     out.append({"id": "ra-window-order", "conf": conf(["m1", "up"], [0, 0]),
                 "steps": [{"ev": "do", "id": "B"}, {"ev": "att", "raw": "s429ra"}, {"ev": "note", "what": "close", "id": "B"},
                           {"ev": "do", "id": "C"}, {"ev": "read", "id": "C"}, {"ev": "note", "what": "close", "id": "C"}]})
+    # three hosts, one mirror inside its Retry-After window: it goes last, the idle registry is asked before it
+    # (seeded change C12-3: the back-off part of the comparator looks at the wrong host after the first swap)
+    for hosts in (["m1", "m2", "up"], ["m2", "m1", "up"]):
+        for first in ("s404", "s429ra"):
+            second = "s429ra" if first == "s404" else "s404"
+            out.append({"id": "ra-window-3hosts-%s-%s" % (hosts[0], first), "conf": conf(hosts, [0, 0, 0]),
+                        "steps": [{"ev": "do", "id": "B"}, {"ev": "att", "raw": first}, {"ev": "att", "raw": second},
+                                  {"ev": "read", "id": "B"}, {"ev": "note", "what": "close", "id": "B"},
+                                  {"ev": "do", "id": "C"}, {"ev": "att", "raw": "s404"},
+                                  {"ev": "read", "id": "C"}, {"ev": "note", "what": "close", "id": "C"}]})
     # uploads whose body can be sent only once fail on their retry (ErrNotRetryable); as many of them as the
     # host has throttle slots, then an ordinary request to the same host (seeded change C17-4)
     for conc in (1, 2, 3):
